@@ -15,7 +15,7 @@ def atom(x):
         x = x.encode('utf8', 'surrogateescape')
     if not isinstance(x, (bytes, bytearray)):
         raise TypeError('cannot encode %r' % (x,))
-    if _BARE.match(x):
+    if _BARE.fullmatch(x):        # not match(): '$' also matches before a final newline
         return bytes(x)
     out = bytearray(b'"')
     for c in x:
